@@ -72,12 +72,13 @@ class Struct:
 
 class Coroutine(Struct):
     """a coroutine / async-fn body value: captured variables + resume state"""
-    __slots__ = ('state', 'body')
+    __slots__ = ('state', 'body', 'variants')
 
     def __init__(self, name, fields, body=None):
         Struct.__init__(self, name, fields)
         self.state = 0
         self.body = body
+        self.variants = {}      # saved locals per suspension state
 
 
 class Enum:
